@@ -522,6 +522,20 @@ func genPatternT(r *R, th theme) (pat string, insecure, psl bool) {
 // genCfg draws an accepted configuration.
 func genCfg(r *R) Cfg {
 	var c Cfg
+	if r.P(0.025) {
+		// the MINIMAL configurations: an origin list and defaults everywhere else (what a
+		// quick-start copies from the documentation; what a "common case" shortcut keys on)
+		switch r.Intn(5) {
+		case 0, 1:
+			return Cfg{Origins: []string{"*"}}
+		case 2:
+			return Cfg{Origins: []string{"https://example.com", "*"}}
+		case 3:
+			return Cfg{Origins: []string{"*"}, Methods: []string{pick(r, []string{"GET", "POST", "HEAD"})}}
+		default:
+			return Cfg{Origins: []string{"https://example.com"}}
+		}
+	}
 	c.Credentialed = r.P(0.4)
 	switch x := r.Intn(20); {
 	case x < 5:
@@ -1247,9 +1261,15 @@ func pokeGetters(m *cors.Middleware) {
 
 // mkMW / zeroMW: every middleware of the harness is created here.
 func mkMW(cc cors.Config) (*cors.Middleware, error) {
+	bgBeforeCreate(cc)
 	m, err := cors.NewMiddleware(cc)
+	bgAfterCreate()
 	if err == nil {
 		registerObservers(m)
+		bgRegister(m)
+		if bg.lastCfg != nil {
+			bg.lastCfg[m] = cloneConfig(cc)
+		}
 	}
 	return m, err
 }
@@ -1257,6 +1277,7 @@ func mkMW(cc cors.Config) (*cors.Middleware, error) {
 func zeroMW() *cors.Middleware {
 	m := new(cors.Middleware)
 	registerObservers(m)
+	bgRegister(m)
 	return m
 }
 
@@ -1269,4 +1290,85 @@ func newMW(c Cfg) (m *cors.Middleware, err error, panicked any) {
 	}()
 	m, err = mkMW(c.Config())
 	return
+}
+
+// varyCfg: a configuration related to a — the SMALLEST difference in one aspect (where
+// "nothing changed, skip the work" shortcuts go wrong), or a's origins with other settings.
+func varyCfg(r *R, a Cfg) Cfg {
+	b := a.clone()
+	if r.P(0.3) {
+		// the SMALLEST difference: one aspect, everything else equal - where "nothing
+		// changed, skip the swap" shortcuts go wrong
+		switch r.Intn(7) {
+		case 0: // Authorization next to the wildcard
+			hasStar, hasAuth := false, -1
+			for i, h := range b.RequestHeaders {
+				hasStar = hasStar || h == "*"
+				if strings.EqualFold(h, "authorization") {
+					hasAuth = i
+				}
+			}
+			switch {
+			case hasStar && hasAuth >= 0:
+				b.RequestHeaders = append(b.RequestHeaders[:hasAuth:hasAuth], b.RequestHeaders[hasAuth+1:]...)
+			case hasStar:
+				b.RequestHeaders = append(b.RequestHeaders, "Authorization")
+			default:
+				b.RequestHeaders = append(b.RequestHeaders, "X-One-More")
+			}
+		case 1:
+			b.MaxAge = pick(r, []int{a.MaxAge + 1, 0, -1, 5})
+		case 2:
+			b.Status = pick(r, []int{0, 200, 204, 299})
+		case 3:
+			if !(len(b.Methods) == 1 && b.Methods[0] == "*") {
+				b.Methods = append(b.Methods, "ONEMORE")
+			}
+		case 4:
+			if len(b.ResponseHeaders) > 0 && b.ResponseHeaders[0] != "*" {
+				b.ResponseHeaders = append(b.ResponseHeaders, "X-One-More-Exposed")
+			} else if !b.Credentialed {
+				b.ResponseHeaders = []string{"X-Only-Exposed"}
+			}
+		case 5:
+			if len(b.Origins) > 0 && b.Origins[0] != "*" {
+				b.Origins = append(b.Origins, "https://one-more.example.org")
+			}
+		case 6:
+			if !b.PNANoCors && !b.PNA {
+				star := false
+				for _, o := range b.Origins {
+					star = star || o == "*"
+				}
+				if !star {
+					b.PNA = true
+				}
+			}
+		}
+		return b
+	}
+	fresh := genCfg(r)
+	if r.P(0.6) {
+		b.Methods = fresh.Methods
+	}
+	if r.P(0.6) {
+		b.RequestHeaders = fresh.RequestHeaders
+	}
+	if r.P(0.5) {
+		b.MaxAge = fresh.MaxAge
+	}
+	if r.P(0.5) {
+		b.Status = fresh.Status
+	}
+	if r.P(0.4) && !b.Credentialed {
+		b.ResponseHeaders = fresh.ResponseHeaders
+	}
+	if r.P(0.3) && len(b.Origins) > 0 && b.Origins[0] != "*" {
+		p, insecure, psl := genPattern(r)
+		if !insecure || !(b.Credentialed || b.PNA || b.PNANoCors) || b.TolInsecure {
+			b.Origins = append(b.Origins, p)
+			b.TolPSL = b.TolPSL || psl
+		}
+	}
+	return b
 }
